@@ -128,6 +128,240 @@ class Taint:
         return any(p.local in carriers for p in places)
 
 
+ST = "zcash_pool_migration::denomination::strategies::CanonicalOneTwoFive::"
+MINF, MAXF, CAPF = "*arg0.min_denomination_zatoshi", "*arg0.max_denomination_zatoshi", "*arg0.max_notes"
+
+
+def _mut_ref_target(body, du, op):
+    """local behind `&mut local` passed as an operand (None if not a plain mutable borrow)"""
+    if op.kind not in ("copy", "move") or op.place.proj:
+        return None
+    d = du.single(op.place.local)
+    n = 0
+    while d is not None and d[0] == "stmt" and n < 6:
+        n += 1
+        rv = d[2].rv
+        if rv.kind in ("ref", "raw"):
+            if not (d[2].ty or "").startswith("&mut"):
+                return None
+            if not rv.place.proj:
+                return rv.place.local
+            if tuple(rv.place.proj) == ("*",):
+                d = du.single(rv.place.local)
+                continue
+            return None
+        if rv.kind == "use" and rv.ops[0].kind in ("copy", "move") and not rv.ops[0].place.proj:
+            d = du.single(rv.ops[0].place.local)
+            continue
+        return None
+    return None
+
+
+def structure(chk, w):
+    """structural clauses of the canonical strategy (see module docstring of the rule names)"""
+    import defuse
+    import sqlfx
+    import vc
+    try:
+        wmn, new, split = w.fn(ST + "with_max_notes"), w.fn(ST + "new"), w.fn(ST + "unconstrained_split")
+        pd = w.fn("zcash_pool_migration::denomination::plan_denominations")
+    except KeyError as e:
+        chk.fail("CFG", "missing", "strategy function not found: %s" % e)
+        return
+    plan = [f for f in w.fns.values() if f.p.endswith("DenominationStrategy>::plan") and
+            "CanonicalOneTwoFive" in f.p]
+    # ---- CFG: the normative bounds and the caller's cap reach the strategy unmodified
+    coin = w.consts.get("zcash_protocol::value::COIN", {}).get("v")
+    cap = w.consts.get("zcash_protocol::zip318::DENOM_CAP", {}).get("v")
+    floor = w.consts.get("zcash_protocol::zip318::MAX_RESIDUAL_VALUE", {}).get("v")
+    if coin and cap == 10000 * coin and floor * 100 == coin:
+        chk.ok("CFG", "DENOM_CAP = 10,000 ZEC and MAX_RESIDUAL_VALUE = 0.01 ZEC", sample=True)
+    else:
+        chk.fail("CFG", "constants", "DENOM_CAP = %s, MAX_RESIDUAL_VALUE = %s zatoshi (COIN = %s): not "
+                 "10,000 ZEC / 0.01 ZEC" % (cap, floor, coin))
+    du = defuse.DefUse(wmn.body)
+    calls = [t for bb, t in wmn.body.calls() if t.callee.indirect is None and
+             t.callee.target_p() == ST + "new" and not wmn.body.blocks[bb].cleanup]
+    got = [defuse.show(du.origin(a)) for a in calls[0].args] if len(calls) == 1 else None
+    if got == ["get(arg0)", str(cap), str(floor), "arg1"]:
+        chk.ok("CFG", "with_max_notes(cap, buffer) = new(cap unmodified, DENOM_CAP, MAX_RESIDUAL_VALUE, "
+               "buffer)", sample=True)
+    else:
+        chk.fail("CFG", "with_max_notes", "with_max_notes builds the strategy as new(%s): the caller's "
+                 "note cap or the normative ZIP 318 bounds do not reach it unmodified" % got,
+                 wmn.span.loc())
+    du = defuse.DefUse(new.body)
+    agg = [st for blk in new.body.blocks for st in blk.stmts
+           if st.kind == "=" and st.rv.kind == "agg" and st.rv.agg[0] == "adt"]
+    got = dict(zip(agg[0].rv.agg[3], [defuse.show(du.origin(o)) for o in agg[0].rv.ops])) if len(agg) == 1 else {}
+    want = {"max_notes": "arg0", "max_denomination_zatoshi": "from(arg1)",
+            "min_denomination_zatoshi": "from(arg2)", "buffer_zatoshi": "from(arg3)"}
+    if got == want:
+        chk.ok("CFG", "new stores cap, maximum, minimum and buffer into their own fields")
+    else:
+        chk.fail("CFG", "new", "CanonicalOneTwoFive::new stores %s" % got, new.span.loc())
+    du = defuse.DefUse(pd.body)
+    sh = {t.callee.target_p().rsplit("::", 1)[-1]: [defuse.show(du.origin(a)) for a in t.args]
+          for bb, t in pd.body.calls() if t.callee.indirect is None and not pd.body.blocks[bb].cleanup}
+    if sh.get("with_max_notes") == ["arg2", "arg3"] and \
+            sh.get("plan", [None] * 5)[1:4] == ["arg0", "arg1", "arg4"]:
+        chk.ok("CFG", "plan_denominations hands its cap, buffer, balance, note count and preparation "
+               "fee to the strategy unmodified")
+    else:
+        chk.fail("CFG", "plan_denominations", "plan_denominations calls %s" % sh, pd.span.loc())
+    # ---- BOUND / CAP: what enters the canonical split
+    b = split.body
+    du = defuse.DefUse(b)
+    cyc = sqlfx.cyclic_blocks(b)
+
+    def dominated_by_test(bb, pred, arm):
+        """a switch whose condition satisfies pred and whose `arm` (1 = true) target dominates bb"""
+        for sb, blk in enumerate(b.blocks):
+            t = blk.term
+            if t.kind != "switch" or not pred(defuse.show(du.origin(t.discr))):
+                continue
+            arms = dict(t.arms)
+            tgt = arms.get(arm, t.otherwise if arm not in arms else None)
+            if tgt is not None and (tgt == bb or b.dominates(tgt, bb)) and \
+                    not any(b.dominates(o, bb) or o == bb for v, o in list(arms.items()) +
+                            [("o", t.otherwise)] if o is not None and o != tgt):
+                return True
+        return False
+    pushes = [(bb, t) for bb, t in b.calls() if t.callee.indirect is None and
+              t.callee.target_p().endswith("Vec::<T, A>::push") and not b.blocks[bb].cleanup]
+    lits = []
+    for bb, blk in enumerate(b.blocks):
+        t = blk.term
+        if t.kind == "call" and t.callee.indirect is None and t.dest is not None and \
+                t.callee.target_p().endswith("box_assume_init_into_vec_unsafe"):
+            for st in blk.stmts:
+                if st.kind == "=" and st.rv.kind == "agg" and st.rv.agg[0] == "array":
+                    lits.append((bb, st))
+    if not pushes and not lits:
+        chk.fail("BOUND", "no-element", "no value enters unconstrained_split's result", split.span.loc())
+    n = 0
+    for bb, st in lits:
+        for op in st.rv.ops:
+            n += 1
+            v = defuse.show(du.origin(op))
+            rng = "&new(%s, %s)" % (MINF, MAXF)
+            cont = [(cb, t) for cb, t in b.calls() if t.callee.indirect is None and
+                    t.callee.target_p().endswith("RangeInclusive::<Idx>::contains") and
+                    [defuse.show(du.origin(a)) for a in t.args] == [rng, "&" + v]]
+            okk = any(dominated_by_test(bb, lambda s_, c=cb: s_.startswith("contains(%s, &%s)" % (rng, v)), 1)
+                      for cb, _t in cont)
+            if okk:
+                chk.ok("BOUND", "the lone-note crossing %s enters the split only inside "
+                       "(min..=max).contains(..)" % v, sample=True)
+            else:
+                chk.fail("BOUND", "literal#%d" % n, "the value %s is published as a crossing without "
+                         "the (min_denomination..=max_denomination) range test: a crossing outside "
+                         "[0.01, 10,000] ZEC is possible" % v, st.span.loc())
+    for bb, t in pushes:
+        n += 1
+        x = du.origin(t.args[1])
+        xs = defuse.show(x)
+        good_src = x[0] == "call" and x[1].endswith("zip318::largest_one_two_five") and \
+            defuse.show(x[2][1]) == MINF
+        upper = False
+        if good_src and x[2][0][0] == "local":
+            defs = du.defs.get(x[2][0][1], [])
+            forms = []
+            for kind, _bi, d in defs:
+                if kind == "call" and d.callee.indirect is None and d.callee.target_p() == "core::cmp::Ord::min" \
+                        and MAXF in [defuse.show(du.origin(a)) for a in d.args]:
+                    forms.append("min")
+                elif kind == "stmt" and d.rv.kind in ("bin", "use"):
+                    o = du.origin(d.rv.ops[0]) if d.rv.kind == "use" else ("bin", d.rv.op, du.origin(d.rv.ops[0]),
+                                                                          du.origin(d.rv.ops[1]))
+                    so = defuse.show(o)
+                    forms.append("dec" if re.match(r"\(largest_one_two_five\(_\d+, %s\) Sub 1\)$"
+                                                   % re.escape(MINF), so) else "other:" + so[:40])
+                else:
+                    forms.append("other")
+            upper = bool(forms) and "min" in forms and all(f_ in ("min", "dec") for f_ in forms)
+        elif good_src:
+            upper = MAXF in defuse.show(x[2][0]) and "min(" in defuse.show(x[2][0])
+        lower = dominated_by_test(bb, lambda s_: re.match(r"\(largest_one_two_five\(.*\) Lt %s\)$"
+                                                           % re.escape(MINF), s_) is not None, 0)
+        if not lower and good_src:
+            # or: the value handed to largest_one_two_five is itself tested `>= min` (the helper
+            # returns at least `floor` whenever its argument is at least `floor`)
+            a_txt = re.escape(defuse.show(x[2][0]))
+            lower = dominated_by_test(bb, lambda s_: re.match(r"\(%s Ge %s\)$" % (a_txt, re.escape(MINF)), s_)
+                                      is not None, 1) or \
+                dominated_by_test(bb, lambda s_: re.match(r"\(%s Lt %s\)$" % (a_txt, re.escape(MINF)), s_)
+                                  is not None, 0)
+        capped = dominated_by_test(bb, lambda s_: re.match(r"\(len\(.*\) Lt %s\)$" % re.escape(CAPF), s_)
+                                   is not None, 1)
+        if good_src and upper and lower:
+            chk.ok("BOUND", "pushed crossing = largest_one_two_five(a, min) with a <= max_denomination "
+                   "(every definition of a is min(_, max) or a previous crossing - 1) and the push "
+                   "follows `crossing >= min`", sample=True)
+        else:
+            chk.fail("BOUND", "push#%d" % n, "a crossing %s is pushed without both bounds (from "
+                     "largest_one_two_five: %s, capped by max_denomination: %s, tested against "
+                     "min_denomination: %s)" % (xs[:70], good_src, upper, lower), t.span.loc())
+        if capped:
+            chk.ok("CAP", "every push happens under `crossings.len() < max_notes`", sample=True)
+        else:
+            chk.fail("CAP", "push#%d" % n, "a crossing is pushed without the `len() < max_notes` test: "
+                     "the plan can exceed the note cap", t.span.loc())
+    # the only mutation of the result vector is push
+    res = {(_mut_ref_target(b, du, t.args[0]), t.callee.target_p().rsplit("::", 1)[-1])
+           for bb, t in b.calls() if t.callee.indirect is None and t.args and not b.blocks[bb].cleanup
+           and _mut_ref_target(b, du, t.args[0]) is not None}
+    others = sorted(m for _l, m in res if m not in ("push",))
+    if not others:
+        chk.ok("BOUND", "the split is only ever extended by push")
+    else:
+        chk.fail("BOUND", "mutators", "the split vector is also modified by %s" % others, split.span.loc())
+    # ---- PREFIX: reconciliation only truncates the canonical split
+    if len(plan) != 1:
+        chk.fail("PREFIX", "plan/missing", "CanonicalOneTwoFive::plan not found")
+        return
+    b = plan[0].body
+    du = defuse.DefUse(b)
+    sp = [t for bb, t in b.calls() if t.callee.indirect is None and
+          t.callee.target_p() == ST + "unconstrained_split" and not b.blocks[bb].cleanup]
+    fn_ = [t for bb, t in b.calls() if t.callee.indirect is None and
+           t.callee.target_p().endswith("DenominationPlan::from_notes") and not b.blocks[bb].cleanup]
+    if len(sp) != 1 or len(fn_) != 1 or sp[0].dest is None:
+        chk.fail("PREFIX", "plan/shape", "plan does not compute one canonical split and build one plan "
+                 "from it", plan[0].span.loc())
+        return
+    cv = sp[0].dest.local
+    muts = {}
+    for bb, t in b.calls():
+        if b.blocks[bb].cleanup or t.callee.indirect is not None or not t.args:
+            continue
+        tgt = _mut_ref_target(b, du, t.args[0])
+        if tgt is not None:
+            muts.setdefault(tgt, []).append((bb, t.callee.target_p().rsplit("::", 1)[-1]))
+    stores = [st for blk in b.blocks if not blk.cleanup for st in blk.stmts
+              if st.kind == "=" and st.place.local == cv]
+    cvm = sorted({m for _bb, m in muts.get(cv, [])})
+    given = defuse.show(du.origin(fn_[0].args[2]))
+    if cvm == ["pop"] and not stores and given.startswith("unconstrained_split("):
+        chk.ok("PREFIX", "plan: the canonical split is only ever shortened from the back (pop) before "
+               "it is published", sample=True)
+    else:
+        chk.fail("PREFIX", "plan/mutation", "the crossing values computed by unconstrained_split are "
+                 "modified by %s (stores: %d) before publication; only pop keeps them a prefix of the "
+                 "canonical split" % (cvm, len(stores)), plan[0].span.loc())
+    # each pop of the crossings is paired with a pop of the prepared notes
+    other = [l for l, ms in muts.items() if l != cv and {m for _b, m in ms} == {"pop"}]
+    pops_cv = [bb for bb, m in muts.get(cv, []) if m == "pop"]
+    paired = bool(other) and all(any(b.dominates(bb, ob) or b.dominates(ob, bb)
+                                     for ob, _m in muts[other[0]]) for bb in pops_cv) and \
+        len(pops_cv) == len(muts[other[0]])
+    if paired:
+        chk.ok("PREFIX", "every pop of the crossing values is paired with a pop of the prepared notes")
+    else:
+        chk.fail("PREFIX", "plan/unpaired-pop", "crossing values and prepared notes are not truncated "
+                 "together", plan[0].span.loc())
+
+
 def main(tier):
     chk = Check("C16", "other", tier)
     chk.explanation = (
@@ -139,8 +373,12 @@ def main(tier):
         "not decided.")
     chk.trusted = ["rustc MIR and trait resolution (class-hierarchy expansion for trait calls)"]
     chk.rule("RNG", "the rng parameter of the planning functions is non-interfering", floor=2)
+    chk.rule("CFG", "normative bounds and the caller's cap reach the strategy unmodified", floor=4)
+    chk.rule("BOUND", "every value entering the canonical split is range-tested", floor=3)
+    chk.rule("CAP", "every push is under the note-cap test", floor=1)
+    chk.rule("PREFIX", "reconciliation only truncates the canonical split", floor=2)
     chk.rule("control", "positive control", floor=1)
-    w = zf.World(extract.facts_dir("all"), ["zcash_pool_migration", "zcash_pool_migration_memory",
+    w = zf.World(extract.facts_dir("all"), ["zcash_pool_migration", "zcash_pool_migration_memory", "zcash_protocol",
                                             "zcash_client_sqlite"])
     T = Taint(w)
     targets = []
@@ -171,6 +409,7 @@ def main(tier):
                          "the plan can depend on the random generator: %s" % T.why.get((f.id, i), "?"),
                          f.span.loc())
     chk.analysed["planning_functions"] = [f.p for f in targets]
+    structure(chk, w)
     # control: a function that really draws from its generator must be flagged
     draw = None
     for f in w.fns.values():
